@@ -44,7 +44,7 @@ def gen_vectors(run, module, to_vector, nslices, name):
     paths, results = [], []
 
     def one(s):
-        r = core.tlc_ok(module, cfg=cfg_for(module, run.tier), workers=1, timeout=3000,
+        r = core.tlc_ok(module, cfg=cfg_for(module, run.tier), workers=1, timeout=3000, xmx="3g",
                         env={"VERIF_SEED": run.seed, "GEN_SLICE": s, "GEN_NSLICES": nslices},
                         workdir=os.path.join(run.work, f"tlc_g{s}"))
         rows = r.printed_json()
@@ -71,7 +71,7 @@ def replay_and_validate(run, binmode, trace_module, vec_paths, name):
         core.run_rs("c04", [binmode, vp, tp])
         events = core.read_ndjson(tp)
         core.check_i32(events)
-        rej, r = core.validate(trace_module, tp, n_events=len(events), timeout=3000, xmx="6g")
+        rej, r = core.validate(trace_module, tp, n_events=len(events), timeout=3000, xmx="3g")
         why = {}
         for line in r.out.splitlines():
             m = re.match(r'<<"REJECT", (\d+), "([a-z_]*)">>', line)
@@ -104,14 +104,14 @@ def check(run, vec_paths=None):
     note = nltable_selfcheck()
     tier = run.tier
     # M
-    m = core.tlc_ok("mc/MC_CPR", cfg=cfg_for("mc/MC_CPR", tier), workers=PAR, timeout=3000,
+    m = core.tlc_ok("mc/MC_CPR", cfg=cfg_for("mc/MC_CPR", tier), workers=PAR, timeout=3000, xmx="3g",
                     env={"VERIF_SEED": run.seed})
     run.add_tlc(m)
     # G
     vec_cov = Counter()
     nvec = 0
     if vec_paths is None:
-        nslices = 2 if tier == "quick" else 8
+        nslices = 4 if tier == "quick" else 8
         vec_paths, gres = gen_vectors(run, "gen/Gen_CPR04", to_vector04, nslices, "c04")
         seen = set()
         for vecs, r in gres:
